@@ -16,12 +16,38 @@ Theorem C13_rread : forall m count avail,
 Proof. exact rread_fits. Qed.
 Print Assumptions C13_rread.
 
-(** the same for a Tread on an xattr fid (value of any length, any offset) *)
+(** the same for a Tread on an xattr fid: value of any length, ANY offset (all of uint64 and beyond) *)
 Theorem C13_rread_xattr : forall m count off vlen,
   11 <= m ->
   sreply_frame (txread_handle m count off vlen) <= m /\ txread_handle m count off vlen <> SPanic.
 Proof. exact xread_fits. Qed.
 Print Assumptions C13_rread_xattr.
+
+(** Offset + Count wrapping in 64 bits: refused (EINVAL) since 7f754bf; before, it reached buf[Offset:] *)
+Theorem C13_xattr_wrap_refuted_before_fix :
+  txread_handle_wrapping 4096 2 18446744073709551615 10 = SPanic /\
+  txread_handle 4096 2 18446744073709551615 10 = SRlerror EINVAL.
+Proof. exact xread_wrapping_refuted. Qed.
+
+(** "the msize it announced", read over a whole session: after ANY history of Tversions (smaller,
+    larger, refused ones in between) connState.messageSize is the msize of the last Rversion that
+    announced one ... *)
+Theorem C13_session_msize : forall h cs,
+  fst (run_hist cs h) = last_announced cs (snd (run_hist cs h)).
+Proof. exact run_hist_announced. Qed.
+Print Assumptions C13_session_msize.
+
+(** ... and every Rread, xattr Rread and Rreaddir sent afterwards fits THAT msize; no handler panics *)
+Theorem C13_session : forall h count avail off vlen sizes,
+  let cs := fst (run_hist 0 h) in
+  let ann := last_announced 0 (snd (run_hist 0 h)) in
+  11 <= ann ->
+  sreply_frame (tread_handle cs count avail) <= ann /\
+  sreply_frame (txread_handle cs count off vlen) <= ann /\
+  sreply_frame (treaddir_handle cs count sizes) <= ann /\
+  tread_handle cs count avail <> SPanic /\ txread_handle cs count off vlen <> SPanic.
+Proof. exact session_fits. Qed.
+Print Assumptions C13_session.
 
 (** Rreaddir: whatever count and whatever entries the backend returned *)
 Theorem C13_rreaddir : forall m count sizes,
@@ -75,5 +101,11 @@ Print Assumptions C13_readdir_end_to_end.
 (** hypotheses are satisfiable / sample evaluations *)
 Example C13_adopt_example : adopt 65536 8192 = Some 8192 /\ payload_size 8192 = 7680.
 Proof. split; reflexivity. Qed.
-Example C13_rread_example : tread_handle 4096 4294967295 100 = SRlerror /\ tread_handle 4096 4096 100000 = SData 4085.
+Example C13_rread_example : tread_handle 4096 4294967295 100 = SRlerror ENOBUFS /\ tread_handle 4096 4096 100000 = SData 4085.
 Proof. split; reflexivity. Qed.
+Example C13_hist_example :
+  run_hist 0 [TV 65536 true; TV 0 true; TV 4096 true; TV 8192 false] = (4096, [65536; 0; 4096; 0]) /\
+  last_announced 0 [65536; 0; 4096; 0] = 4096.
+Proof. split; reflexivity. Qed.
+Print Assumptions C13_rreaddir_unnegotiated.
+Print Assumptions C13_payload_size.
